@@ -12,6 +12,7 @@ import SlacModel.Render
 import SlacProofs.OrderSafe
 import SlacModel.Validate
 import SlacModel.Scanner
+import SlacModel.Regex
 open Slac Codec
 
 def ordStr : Ordering → String | .lt => "-1" | .eq => "0" | .gt => "1"
@@ -243,6 +244,44 @@ def runRr : List String → Option String
     | _ => some "reject"
   | _ => none
 
+/-- `re <name> <n> <args…> || <raw engine answers>`: the wrapper model over the shipped engine answers -/
+def parseSTok (t : String) : Option Str := match t.toList with | 'S' :: h => some (unhex (String.ofList h)) | _ => none
+
+def parseEngine : List String → Option (Regex.Engine Unit)
+  | ["-"] => some ⟨fun _ => .error [], fun _ _ => false, fun _ _ => [], fun _ _ => none, fun _ => 0, fun _ h _ _ => h⟩
+  | ["err"] => some ⟨fun _ => .error ['e'], fun _ _ => false, fun _ _ => [], fun _ _ => none, fun _ => 0, fun _ h _ _ => h⟩
+  | "ok" :: m :: clen :: nf :: r => do
+    let k := nf.toNat!
+    let finds ← (r.take k).mapM parseSTok
+    let r := r.drop k
+    let (caps, r) ← match r with
+      | "none" :: r => some (none, r)
+      | "some" :: c :: r =>
+        let c := c.toNat!
+        (do let cs ← (r.take c).mapM (fun t => if t == "~" then some none else (parseSTok t).map some); pure (some cs, r.drop c))
+      | _ => none
+    let rep ← match r with | [t] => parseSTok t | _ => none
+    pure ⟨fun _ => .ok (), fun _ _ => m == "T", fun _ _ => finds, fun _ _ => caps, fun _ => clen.toNat!, fun _ _ _ _ => rep⟩
+  | _ => none
+
+def splitAtBar (r : List String) : List String × List String :=
+  (r.takeWhile (· ≠ "||"), (r.dropWhile (· ≠ "||")).drop 1)
+
+def runRe (r : List String) : Option String :=
+  match r with
+  | name :: n :: r => do
+    let (a, e) := splitAtBar r
+    let (args, _) ← parseN parseVal n.toNat! a []
+    let E ← parseEngine e
+    let res : Stdlib.Res Float ← match String.ofList (unhex name) with
+      | "re_is_match" => some (Regex.isMatch E args)
+      | "re_find" => some (Regex.find E args)
+      | "re_capture" => some (Regex.capture E args)
+      | "re_replace" => some (Regex.replace E args)
+      | _ => none
+    pure (showNRes res)
+  | _ => none
+
 def jnFloat : JsonNum Float := ⟨F64.isFinite, F64.ofInt⟩
 
 partial def canonJson : Json Float → String
@@ -280,6 +319,7 @@ def step (line : String) : String :=
     | "compile" :: r => runCompile r
     | "lay" :: r => runLay r
     | "rr" :: r => runRr r
+    | "re" :: r => runRe r
     | "chkbool" :: r => runChkbool r
     | _ => none
   r.getD "bad"
